@@ -102,6 +102,18 @@ fn c08_success_contract() {
 // error(): tallies. Invariant: codes pairwise distinct, counts >= 1, sorted by count descending.
 // ---------------------------------------------------------------------------------------------
 
+pub(crate) fn stored_at_of(q: &PutQuery) -> usize {
+    q.stored_at
+}
+
+pub(crate) fn tally_of(q: &PutQuery, code: i32) -> usize {
+    count_of(q, code)
+}
+
+pub(crate) fn tallies(q: &PutQuery) -> usize {
+    q.errors.len()
+}
+
 fn count_of(q: &PutQuery, code: i32) -> usize {
     let mut i = 0usize;
     while i < q.errors.len() {
